@@ -543,7 +543,10 @@ def finish(pid, tier, seed, spec, agg, t0, extra_cov=None):
         print('KNOWN-FINDING: property=%s %s (%s; %d occurrence(s) this run, e.g. case %s)' % (pid, k['what'], k['key'], n, case))
     nontriv = len(agg.sigs)
     if spec.get('evals_counter'):
-        agg.evals = agg.counters.get(spec['evals_counter'], 0)
+        # evaluations = number of oracle evaluations (one or several counters measured by the harnesses), so that it is the
+        # population distinct_nontrivial is drawn from
+        ec = spec['evals_counter']
+        agg.evals = sum(agg.counters.get(k, 0) for k in ([ec] if isinstance(ec, str) else ec))
     cov = dict(evaluations=max(agg.evals, 0), distinct_nontrivial=nontriv, rule=spec['rule'],
                samples=agg.samples[:8] or ['(no sample emitted)'],
                counters=dict(sorted(agg.counters.items())),
